@@ -12,17 +12,17 @@ Definition collision_free (H : chunk -> chunk -> chunk) : Prop :=
 
 (* Equal roots on the declared domain imply equal canonical values of all hashed fields. *)
 Definition tamper_evident (H : chunk -> chunk -> chunk) (p : hprog) : Prop :=
-  forall e1 e2 r, dom p e1 = true -> dom p e2 = true ->
-    root H p e1 = Some r -> root H p e2 = Some r -> fields p e1 = fields p e2.
+  forall (Z : nat -> chunk) e1 e2 r, dom p e1 = true -> dom p e2 = true ->
+    root H Z p e1 = Some r -> root H Z p e2 = Some r -> fields p e1 = fields p e2.
 
 Lemma wf_tamper_evident : forall H, collision_free H -> forall p, wf p = true -> tamper_evident H p.
-Proof. intros H Hi p W e1 e2 r D1 D2 R1 R2. eapply root_injective; eauto. Qed.
+Proof. intros H Hi p W Z e1 e2 r D1 D2 R1 R2. eapply root_injective; eauto. Qed.
 
 (* The hash is NOT injective: two environments with different hashed fields and the same root,
-   whatever the compression function. *)
+   whatever the compression function (and the zero-hash table). *)
 Definition collides (p : hprog) : Prop :=
   exists e1 e2, fields p e1 <> fields p e2 /\
-    forall H, root H p e1 <> None /\ root H p e1 = root H p e2.
+    forall H Z, root H Z p e1 <> None /\ root H Z p e1 = root H Z p e2.
 
 (* ------------------------------------------------------------------------------------------ *)
 (* Which generated programs are well-formed.  A change of ssz.go that alters this table (a new
@@ -80,7 +80,7 @@ Proof. intros H Hi. apply (wf_tamper_evident H Hi). vm_compute. reflexivity. Qed
 Local Open Scope N_scope.
 
 Ltac collide e1 e2 :=
-  exists e1, e2; split; [vm_compute; discriminate | intro H; split; [vm_compute; discriminate | vm_compute; reflexivity]].
+  exists e1, e2; split; [vm_compute; discriminate | intros H Z; split; [vm_compute; discriminate | vm_compute; reflexivity]].
 
 (* F6: legacy hashes (v1.0 - v1.2) put strings in with PutBytes: zero padding, no length.
    name = "a" and name = "a\000" give the same config, definition and lock hash. *)
@@ -141,7 +141,7 @@ Qed.
    the declared Bytes20) has the root of the 20-byte one.  Nothing else in lock verification looks
    at that field's length (finding F12 of the harness). *)
 Definition reg_lock (fee : list N) : value :=
-  VStruct [("Validators", VList [VStruct [("BuilderRegistration",
+  VStruct [("Definition", VStruct [("ConfigHash", VBytes (repeat 0 32))]); ("Validators", VList [VStruct [("BuilderRegistration",
     VStruct [("Message", VStruct [("FeeRecipient", VBytes fee)])])]])].
 
 Lemma registration_padding_collision :
@@ -150,6 +150,6 @@ Lemma registration_padding_collision :
   dom prog_lock_v1_11 (reg_lock (repeat 9 20)) = true /\
   dom prog_lock_v1_11 (reg_lock (repeat 9 20 ++ [0])) = false.
 Proof.
-  repeat split; try (vm_compute; reflexivity);
-    collide (reg_lock (repeat 9 20)) (reg_lock (repeat 9 20 ++ [0])).
+  do 5 (split; [collide (reg_lock (repeat 9 20)) (reg_lock (repeat 9 20 ++ [0]))|]).
+  split; vm_compute; reflexivity.
 Qed.
